@@ -704,3 +704,37 @@ func sortedFnNames(fns []*ssa.Function) []string {
 	sort.Strings(out)
 	return out
 }
+
+// ruleRollbackUndoesFrees: every way a WRITE transaction is abandoned undoes the
+// page frees it recorded — freelist.Rollback(<tx>.meta.Txid()) is must-pass before
+// (*Tx).close in both the user rollback and the physical rollback. A transaction
+// frees pages immediately (DeleteBucket, rebalance); if they stay in pending[txid]
+// after the abort, the next writer re-uses the txid and releases pages that are
+// still part of the newest committed state.
+func ruleRollbackUndoesFrees(c *Ctx, id string) {
+	c.rule(id, "abort-undoes-frees", 2, func() {
+		wr := txField(c, "writable")
+		dbF := txField(c, "db")
+		for _, name := range []string{"bbolt.(*Tx).nonPhysicalRollback", "bbolt.(*Tx).rollback"} {
+			fn := c.fn(name)
+			closeC := c.theCall(id, fn, "bbolt.(*Tx).close")
+			if closeC == nil {
+				continue
+			}
+			rbs := callsIn(fn, "freelist.Interface.Rollback")
+			isRB := func(in ssa.Instruction) bool {
+				for _, r := range rbs {
+					if r == in {
+						return true
+					}
+				}
+				return false
+			}
+			r := reach(nil, []*ssa.BasicBlock{fn.Blocks[0]}, isRB, cutByEnv(map[*types.Var]bool{wr: true, dbF: true}))
+			ok := len(rbs) >= 1 && !r[closeC]
+			// and the key is the transaction's own id (C06.R4 checks the argument)
+			c.check(id+":"+name+":freelist.Rollback<close", fn, closeC.Pos(), "for an open write transaction every path to tx.close() passes freelist.Rollback(txid): the pages it freed leave the pending set", ok,
+				"tx.close() is reachable for a write transaction without freelist.Rollback: pages freed by the aborted transaction stay pending under its txid and are released by the next writer although the committed state still uses them")
+		}
+	})
+}
